@@ -20,57 +20,108 @@ open RqModel
 
 /-- **Main theorem.** Take ANY history `es` of one node's log/FSM events from the empty
 node (appends of command / configuration / no-op / barrier entries, follower
-truncations, commit advances, FSM steps, snapshot installs, log compactions, in any
-order and number, disabled events being skipped). A linearizable read that takes its
-read index there (`readIndex = commit index`) subscribes to `target n`. After ANY
-continuation `es'` — in particular one that appends nothing at all — as soon as the
-FSM goroutine has processed the entries that were committed when the read started
-(`n.commit ≤ n2.handed`), the subscription has fired. No further write is needed,
-whatever the type of the latest committed entries. -/
-theorem lin_read_completes_when_healthy (es es' : List Ev) :
+truncations, commit advances, FSM steps, snapshot installs, log compactions, process
+restarts, in any order and number, disabled events being skipped). A linearizable read
+takes its read index there (`readIndex = n.commit`); after any further events `es1`
+(VerifyLeader, the term re-check) `fsmWaitIndex` scans the log in state `n1` and the read
+subscribes to `targetAt n1 readIndex`. After ANY continuation `es2` — in particular one
+that appends nothing at all — as soon as the FSM goroutine has processed the entries that
+were committed when the read started (`n.commit ≤ n2.handed`), the subscription has
+fired. No further write is needed, whatever the type of the latest committed entries.
+Hypotheses: the process is not restarted while the read is in flight, and the
+ReadyTarget agrees with the FSM index at the scan (`Synced n1`, see `synced_by_strong_read`:
+guaranteed by the strong-read guard of `waitForLinearizableRead`). -/
+theorem lin_read_completes_when_healthy (es es1 es2 : List Ev) :
     let n := run {} es
-    let n2 := run n es'
-    n.commit ≤ n2.handed → reached n2 (target n) = true := by
-  intro n n2 hh
+    let n1 := run n es1
+    let n2 := run n1 es2
+    NoReopen es1 → NoReopen es2 → Synced n1 →
+    n.commit ≤ n2.handed → reached n2 (targetAt n1 n.commit) = true := by
+  intro n n1 n2 hno1 hno2 hsync hh
   have hinv : Inv n := inv_run _ es inv_init
-  have hA := scan_spec_A n n.commit hinv.commit_le_len
-  have hp : Pending n (target n) := by
+  have hinv1 : Inv n1 := inv_run _ es1 hinv
+  have hm1 := mono_run n hinv es1 hno1
+  have hri : n.commit ≤ n1.log.length := by
+    have := hinv1.commit_le_len
+    change n.handed ≤ n1.handed ∧ n.commit ≤ n1.commit ∧ _ at hm1
+    omega
+  have hA := scan_spec_A n1 n.commit hri
+  have hp : Pending n1 (targetAt n1 n.commit) := by
+    unfold targetAt
     rcases hA with h | ⟨h, hc⟩
-    · exact Or.inl h
-    · by_cases hr : target n ≤ n.fsmIdx
-      · exact Or.inl hr
+    · left; unfold Synced at hsync; omega
+    · by_cases hr : scan n1 n.commit ≤ n1.fsmIdx
+      · left; unfold Synced at hsync; omega
       · right
-        refine ⟨?_, h, hc⟩
-        apply Nat.lt_of_not_le
-        intro hle
-        exact hr (hinv.cmd_reached _ hle hc)
-  have hp2 : Pending n2 (target n) := pending_run n es' hinv _ hp
-  rcases hp2 with h | ⟨ha, hb, _⟩
+        refine ⟨?_, ?_, hc⟩
+        · apply Nat.lt_of_not_le
+          intro hle
+          exact hr (hinv1.cmd_reached _ hle hc)
+        · change n.handed ≤ n1.handed ∧ n.commit ≤ n1.commit ∧ _ at hm1
+          omega
+  have hp2 : Pending n2 (targetAt n1 n.commit) := pending_run n1 es2 hinv1 hno2 _ hp
+  rcases hp2 with h | ⟨ha, _, _⟩
   · simp [reached, h]
-  · have hA' : target n ≤ n.commit ∨ target n ≤ n.fsmIdx := by
+  · exfalso
+    have hle : targetAt n1 n.commit ≤ n.commit ∨ targetAt n1 n.commit ≤ n1.fsmIdx := by
+      unfold targetAt
       rcases hA with h | ⟨h, _⟩
       · exact Or.inr h
       · exact Or.inl h
-    have hm := mono_run n es'
-    have := hinv.fsm_le_handed
-    have := hinv.handed_le_commit
-    exfalso
-    change n.handed ≤ n2.handed ∧ n.commit ≤ n2.commit ∧ n.fsmIdx ≤ n2.fsmIdx at hm
-    rcases hA' with h | h <;> omega
+    have hm2 := mono_run n1 hinv1 es2 hno2
+    have := hinv1.fsm_le_handed
+    change n1.handed ≤ n2.handed ∧ _ at hm2
+    rcases hle with h | h <;> omega
+
+/-- The strong-read guard is what makes `Synced` hold at the scan: once the FSM has applied a
+command entry in this process (the strong read that `waitForLinearizableRead` insists on
+before it does anything), the ReadyTarget and the FSM index agree, and stay so until the
+process restarts. -/
+theorem synced_by_strong_read (es0 es1 : List Ev) :
+    let m := run {} es0
+    Ev.fsm.enabled m = true → m.typeAt (m.handed + 1) = some (some .command) → NoReopen es1 →
+    Synced (run (applyEv m .fsm) es1) := by
+  intro m hen hc hno
+  have hinv : Inv m := inv_run _ es0 inv_init
+  exact synced_run _ (inv_step m .fsm hinv) es1 hno (synced_after_command m hinv hen hc)
+
+/-- The statement WITHOUT the two hypotheses (kept visible): false, because after a fast
+restart `Open` sets the FSM index to the snapshot index without signalling the
+ReadyTarget. The real code never gets there: `strongReadTerm` is reset by `Open`, so a
+strong read (an `fsmApply`, which signals) always precedes the wait. -/
+def C38_full : Prop :=
+  ∀ es es1 es2 : List Ev,
+    let n := run {} es
+    let n1 := run n es1
+    let n2 := run n1 es2
+    n.commit ≤ n2.handed → reached n2 (targetAt n1 n.commit) = true
+
+theorem C38_full_witness : ¬ C38_full := by
+  intro h
+  have := h [.append .command, .commit 1, .fsm, .reopen 1, .append .config, .commit 2, .fsm] [] []
+  revert this
+  decide
+
+/-- `lin_read_completes_when_healthy` is the partial statement: `C38_full` restricted to runs
+without a restart in flight and with the ReadyTarget in step with the FSM index -/
+theorem C38_partial (es es1 es2 : List Ev) (h1 : NoReopen es1) (h2 : NoReopen es2)
+    (hs : Synced (run (run {} es) es1)) (hh : (run {} es).commit ≤ (run (run (run {} es) es1) es2).handed) :
+    reached (run (run (run {} es) es1) es2) (targetAt (run (run {} es) es1) (run {} es).commit) = true :=
+  lin_read_completes_when_healthy es es1 es2 h1 h2 hs hh
 
 /-- Draining is exactly `commit - handed` FSM steps, each of them enabled, and it is all
 that a healthy leader needs: the read completes with no event other than the FSM
 goroutine catching up. -/
 theorem lin_read_completes_after_drain (es : List Ev) :
     let n := run {} es
-    (drain n).handed = n.commit ∧ reached (drain n) (target n) = true := by
-  intro n
+    Synced n → (drain n).handed = n.commit ∧ reached (drain n) (target n) = true := by
+  intro n hs
   have hinv : Inv n := inv_run _ es inv_init
   have hd := drain_handed n hinv.handed_le_commit
   refine ⟨hd, ?_⟩
-  have := lin_read_completes_when_healthy es (List.replicate (n.commit - n.handed) Ev.fsm)
+  have := lin_read_completes_when_healthy es [] (List.replicate (n.commit - n.handed) Ev.fsm)
   simp only at this
-  apply this
+  apply this (fun _ h => by simp at h) (noReopen_replicate_fsm _) hs
   change n.commit ≤ (drain n).handed
   omega
 
@@ -78,25 +129,33 @@ theorem lin_read_completes_after_drain (es : List Ev) :
 the current term, is ready, confirms leadership with a quorum and whose term did not
 change, the call returns `ok` (never `timeout`) once the FSM goroutine has caught up
 with the commit index taken at the start, for every reachable log. -/
-theorem wait_returns_ok_when_healthy (es es' : List Ev) (term : Nat) :
+theorem wait_returns_ok_when_healthy (es es1 es2 : List Ev) (term : Nat) :
     let n := run {} es
-    let n2 := run n es'
-    n.commit ≤ n2.handed →
-    waitLin ⟨term, term, true, true, n, true, term, n2⟩ = .ok := by
-  intro n n2 hh
-  have := lin_read_completes_when_healthy es es' hh
+    let n1 := run n es1
+    let n2 := run n1 es2
+    NoReopen es1 → NoReopen es2 → Synced n1 → n.commit ≤ n2.handed →
+    waitLin ⟨term, term, true, true, n, true, term, n1, n2⟩ = .ok := by
+  intro n n1 n2 h1 h2 hs hh
+  have := lin_read_completes_when_healthy es es1 es2 h1 h2 hs hh
   simp only [waitLin, ne_eq, not_true_eq_false, if_false, Bool.not_true, Bool.false_eq_true]
-  change reached n2 (target n) = true at this
+  change reached n2 (targetAt n1 n.commit) = true at this
   rw [this]; rfl
 
 /-- The read never waits for more than the commit index it took, and never for an entry
 that is not a command: the target is a command entry at or below the read index, or
-is already reached. -/
-theorem target_is_command_or_reached (es : List Ev) :
+is already at or below the FSM index. -/
+theorem target_is_command_or_reached (es es1 : List Ev) (hno : NoReopen es1) :
     let n := run {} es
-    target n ≤ n.fsmIdx ∨ (target n ≤ n.commit ∧ n.typeAt (target n) = some (some .command)) := by
-  intro n
-  exact scan_spec_A n n.commit (inv_run _ es inv_init).commit_le_len
+    let n1 := run n es1
+    targetAt n1 n.commit ≤ n1.fsmIdx ∨
+      (targetAt n1 n.commit ≤ n.commit ∧ n1.typeAt (targetAt n1 n.commit) = some (some .command)) := by
+  intro n n1
+  have hinv : Inv n := inv_run _ es inv_init
+  have hinv1 : Inv n1 := inv_run _ es1 hinv
+  have hm1 := mono_run n hinv es1 hno
+  have := hinv1.commit_le_len
+  change n.handed ≤ n1.handed ∧ n.commit ≤ n1.commit ∧ _ at hm1
+  exact scan_spec_A n1 n.commit (by omega)
 
 /-! ### tie to the source: regenerated facts (harness/extract/facts_readpath.go) -/
 
@@ -119,6 +178,12 @@ theorem fsmApply_signals :
     (Gen.ReadPath.fsmApply.take 3) = [("defer", ""), ("call", "s.fsmIdx.Store"), ("call", "s.fsmTarget.Signal")] := by
   decide
 
+/-- `fsmRestore` stores the snapshot index and signals the target, in that order (the model's
+`restore` event) -/
+theorem fsmRestore_signals :
+    (Expect.ReadPath.callsOf Gen.ReadPath.fsmRestore).filter (fun c => c = "s.fsmIdx.Store" ∨ c = "s.fsmTarget.Signal") =
+      ["s.fsmIdx.Store", "s.fsmTarget.Signal"] := by decide
+
 /-! ### the behaviour before the fix (kept visible) -/
 
 /-- the history of the confirmed defect: a command, then a configuration change
@@ -136,23 +201,23 @@ theorem old_target_witness :
 /-- ... and it stays unsatisfied under every continuation that appends no command entry
 and installs no snapshot: the old code needed a further write. -/
 theorem old_target_stuck (es' : List Ev)
-    (h : ∀ e ∈ es', e ≠ .append .command ∧ ∀ i, e ≠ .restore i) :
+    (h : ∀ e ∈ es', e ≠ .append .command ∧ (∀ i, e ≠ .restore i) ∧ ∀ i, e ≠ .reopen i) :
     let n := run {} witnessHistory
     reached (run n es') (targetOld n) = false := by
   intro n
   -- invariant: fsmIdx = 1, handed ≥ 2, commit ≥ 2, no command entry at an index ≥ 2
   have key : ∀ (es' : List Ev) (m : Node),
-      (∀ e ∈ es', e ≠ .append .command ∧ ∀ i, e ≠ .restore i) →
-      m.fsmIdx = 1 → 2 ≤ m.handed → m.handed ≤ m.commit →
+      (∀ e ∈ es', e ≠ .append .command ∧ (∀ i, e ≠ .restore i) ∧ ∀ i, e ≠ .reopen i) →
+      m.tgt = 1 → 2 ≤ m.handed → m.handed ≤ m.commit →
       (∀ j, 2 ≤ j → typeAtL m.log j ≠ some (some .command)) →
-      (run m es').fsmIdx = 1 := by
+      (run m es').tgt = 1 := by
     intro es'
     induction es' with
     | nil => intro m _ h1 _ _ _; exact h1
     | cons e es' ih =>
       intro m hall h1 h2 h3 h4
       have he := hall e (by simp)
-      have hrest : ∀ e ∈ es', e ≠ .append .command ∧ ∀ i, e ≠ .restore i :=
+      have hrest : ∀ e ∈ es', e ≠ .append .command ∧ (∀ i, e ≠ .restore i) ∧ ∀ i, e ≠ .reopen i :=
         fun e' he' => hall e' (by simp [he'])
       simp only [run, List.foldl_cons]
       unfold applyEv
@@ -201,7 +266,8 @@ theorem old_target_stuck (es' : List Ev)
             · omega
             · omega
             · exact h4
-        | restore i => exact absurd rfl (he.2 i)
+        | restore i => exact absurd rfl (he.2.1 i)
+        | reopen i => exact absurd rfl (he.2.2 i)
         | compact k =>
           simp only [Ev.enabled, decide_eq_true_eq] at hen
           apply ih _ hrest <;> simp only [applyRaw]
@@ -217,7 +283,7 @@ theorem old_target_stuck (es' : List Ev)
             · rw [typeAtL_compact_gt _ _ _ (by omega)] at hc
               exact h4 j hj hc
       · rw [if_neg hen]; exact ih m hrest h1 h2 h3 h4
-  have hn : n = ⟨[some .command, some .config], 2, 2, 1⟩ := by decide
+  have hn : n = ⟨[some .command, some .config], 2, 2, 1, 1⟩ := by decide
   have hf := key es' n h (by rw [hn]) (by rw [hn]; decide) (by rw [hn]; decide) (by
     intro j hj
     rw [hn]
@@ -245,11 +311,23 @@ example :
 -- compacted tail after a snapshot: nothing to wait for
 example :
     let n := run {} [.append .command, .append .config, .append .config, .commit 3, .fsm, .fsm, .fsm, .compact 2]
-    n.fsmIdx = 1 ∧ target n = 1 ∧ reached n (target n) = true := by decide
+    n.fsmIdx = 1 ∧ Synced n ∧ target n = 1 ∧ reached n (target n) = true := by decide
 
 -- a snapshot install followed by a configuration entry
 example :
     let n := run {} [.restore 7, .append .config, .commit 8, .fsm]
-    n.fsmIdx = 7 ∧ target n = 7 ∧ waitLin ⟨3, 3, true, true, n, true, 3, n⟩ = .ok := by decide
+    n.fsmIdx = 7 ∧ Synced n ∧ target n = 7 ∧ waitLin ⟨3, 3, true, true, n, true, 3, n, n⟩ = .ok := by decide
+
+-- the scan runs later than the commit-index read: a command applied in between is seen
+example :
+    let n := run {} [.append .command, .commit 1, .fsm, .append .command, .append .config, .commit 3]
+    let n1 := run n [.fsm]
+    targetAt n 3 = 2 ∧ targetAt n1 n.commit = 2 ∧ reached n1 (targetAt n1 n.commit) = true := by decide
+
+-- after a fast restart the two indexes differ until a command is applied
+example :
+    let n := run {} [.append .command, .commit 1, .fsm, .reopen 1]
+    n.fsmIdx = 1 ∧ n.tgt = 0 ∧ ¬ Synced n ∧
+    Synced (run n [.append .command, .commit 2, .fsm]) := by decide
 
 end C38
